@@ -20,6 +20,7 @@ func rulesC08(c *Ctx) {
 	}
 	w.run()
 	c08Round3(c)
+	deliverContextRule(c, "C08.auth")
 	c.Extra["wtf_functions"] = len(w.fns)
 	nW, nDF, nNSF := 0, 0, 0
 	for _, fn := range w.fns {
